@@ -142,7 +142,7 @@ def value_level(run, tier, nprng, walk, torch_too=False, prop="C02"):
     if torch_too:
         import torch
         from pydrobert.speech.torch import PyTorchSTFTFrameComputer
-    windows = ["hamming", "hann", "bartlett", "blackman", {"name": "gamma", "order": 2}]
+    windows = ["hamming", "hann", "bartlett", "blackman", {"name": "gamma", "order": 2}, None]  # None: the documented default
     combos = []
     frames_cases = []
     Lset = [(3, 1), (4, 2), (5, 5), (6, 4), (7, 3), (8, 1), (4, 9), (5, 7)] if tier == "quick" else \
@@ -196,7 +196,10 @@ def value_level(run, tier, nprng, walk, torch_too=False, prop="C02"):
         if (c.frame_length, c.frame_shift) != (L, S):
             raise common.MachineryError("size assumption broken: wanted %s got %s" % ((L, S), (c.frame_length, c.frame_shift)))
         D = int(2 ** np.ceil(np.log2(L))) if pad else L
-        wf = filters.WindowFunction.from_alias(win) if isinstance(win, str) else filters.GammaWindow(order=2)
+        if win is None:  # Gamma for causal frames, Hann otherwise - decided by the frame style alone
+            wf = filters.GammaWindow() if st in ("causal", "causal+k") else filters.HannWindow()
+        else:
+            wf = filters.WindowFunction.from_alias(win) if isinstance(win, str) else filters.GammaWindow(order=2)
         window = wf.get_impulse_response(L)
         filts, ok = [], True
         for i in range(bank.num_filts):
@@ -250,6 +253,12 @@ def value_level(run, tier, nprng, walk, torch_too=False, prop="C02"):
         raise common.MachineryError("value level: only %d of %d planned cases were inside the bank contract" % (compared, len(plan)))
 
 
+def responses_at_documented_size(bank, frame_length, pad):
+    """the bank's truncated responses at the DFT size the documentation gives for this frame length (public API only)"""
+    D = int(2 ** np.ceil(np.log2(frame_length))) if pad else frame_length
+    return [np.asarray(bank.get_truncated_response(i, D)[1]) for i in range(bank.num_filts)]
+
+
 def default_frame_length(run, tier):
     """With the default frame length every filter keeps at least one non-zero DFT bin."""
     n = 0
@@ -263,12 +272,28 @@ def default_frame_length(run, tier):
                 ("gammatone_mel", lambda: filters.ComplexGammatoneFilterBank("mel", num_filts=nf, sampling_rate=rate)),
             ]:
                 for pad in (True, False):
-                    c = compute.STFTFrameComputer(mk(), pad_to_nearest_power_of_two=pad)
+                    bank = mk()
+                    c = compute.STFTFrameComputer(bank, pad_to_nearest_power_of_two=pad)
                     n += 1
                     run.evaluations += 1
-                    for i, t in enumerate(c._truncated_filts):
+                    for i, t in enumerate(responses_at_documented_size(bank, c.frame_length, pad)):
                         if not np.any(np.abs(t) > 0):
                             run.violation({"kind": "default_frame_length_filter_all_zero", "bank": bname, "rate": rate,
+                                           "num_filts": nf, "pad": pad, "filter": i, "frame_length": c.frame_length})
+    # dense banks with very narrow low filters: here the bandwidth bound (DFT bins no further apart than half the
+    # narrowest filter), not the temporal support, decides the default frame length
+    from pydrobert.speech import scales
+    for rate in (8000, 16000):
+        for low in (20.0, 50.0, 100.0):
+            for nf in (80, 160, 300) if tier == "thorough" else (80, 160):
+                for pad in (True, False):
+                    bank = filters.TriangularOverlappingFilterBank(scales.OctaveScaling(low), num_filts=nf, sampling_rate=rate, low_hz=low)
+                    c = compute.STFTFrameComputer(bank, pad_to_nearest_power_of_two=pad)
+                    n += 1
+                    run.evaluations += 1
+                    for i, t in enumerate(responses_at_documented_size(bank, c.frame_length, pad)):
+                        if not np.any(np.abs(t) > 0):
+                            run.violation({"kind": "default_frame_length_filter_all_zero", "bank": "tri_octave", "rate": rate, "low_hz": low,
                                            "num_filts": nf, "pad": pad, "filter": i, "frame_length": c.frame_length})
     return n
 
